@@ -818,6 +818,10 @@ impl Xot {
                     }
                 }
             } else {
+                // the input ended inside a start tag
+                if let Some(element_builder) = &builder.element_builder {
+                    return Err(ParseError::UnclosedTag(element_builder.span));
+                }
                 return Ok((span_info, builder));
             }
         }
